@@ -17,6 +17,10 @@ func Gen(t *rapid.T) *Case {
 	}
 	c.Strings = rapid.SliceOfN(rapid.OneOf(rapid.SampledFrom([]string{"", "a", "ünï", "日本", "q\"uote"}), rapid.StringN(0, 5, 16)), 0, 3).Draw(t, "strings")
 	c.Noise = rapid.SliceOfN(rapid.IntRange(0, len(shapes)-1), 0, n).Draw(t, "noise")
+	// sibling shapes (same struct as value / pointer, same name family) are the interesting noise
+	if len(c.Noise) > 0 && rapid.Bool().Draw(t, "siblingNoise") {
+		c.Noise[0] = c.Shape ^ 1
+	}
 	return c
 }
 
@@ -26,6 +30,8 @@ func EnumProduct(visit func(*Case)) {
 		for _, api := range apis {
 			for _, sf := range []bool{false, true} {
 				visit(&Case{Shape: s, API: api, IDs: []int{3, 1, 2}, Strings: []string{"x", "é"}, Noise: []int{(s + 1) % len(shapes), (s + 4) % len(shapes)}, StoreFirst: sf})
+				// with the sibling shape (index ^ 1: same struct or same name family in the other form) as noise
+				visit(&Case{Shape: s, API: api, IDs: []int{7, 8}, Strings: []string{"y"}, Noise: []int{s ^ 1, s ^ 1}, StoreFirst: sf})
 			}
 		}
 	}
